@@ -139,6 +139,29 @@ def run_audit(prop):
             "problems": problems}
 
 
+def run_leanchecker():
+    """Thorough tier: re-check every compiled module of the model and the proofs with leanchecker (the toolchain's
+    independent re-checker of .olean files). Cached under lean/.lake by the hash of the Lean sources."""
+    cache = os.path.join(LEAN_DIR, ".lake", "leanchecker-%s.json" % _lean_sources_hash()[:24])
+    if os.path.exists(cache):
+        return json.load(open(cache))
+    mods = []
+    for top in ("InToto", "Proofs"):
+        mods.append(top)
+        for base, _dirs, files in os.walk(os.path.join(LEAN_DIR, top)):
+            for f in sorted(files):
+                if f.endswith(".lean"):
+                    rel = os.path.relpath(os.path.join(base, f), LEAN_DIR)[:-5]
+                    mods.append(rel.replace(os.sep, "."))
+    t0 = time.time()
+    p = subprocess.run(["lake", "env", "leanchecker"] + sorted(set(mods)), cwd=LEAN_DIR, env=lean_env(),
+                       stdout=subprocess.PIPE, stderr=subprocess.STDOUT, text=True)
+    out = {"modules": len(set(mods)), "returncode": p.returncode, "output_tail": p.stdout[-1500:], "seconds": round(time.time() - t0, 1)}
+    if p.returncode == 0 and "uncaught exception" not in p.stdout:
+        json.dump(out, open(cache, "w"))
+    return out
+
+
 # --------------------------------------------------------------------------
 # Driver protocol
 
@@ -306,6 +329,7 @@ def write_evidence(prop, tier, seed, audit, res, wall, extra_cov=None, assumptio
         "trusted_base": TRUSTED_BASE,
         "theorems": audit["theorems"],
         "audit_problems": audit["problems"],
+        "leanchecker": audit.get("leanchecker", "not run (quick tier)"),
         "evaluations": res.evaluations,
         "distinct_nontrivial": len(res.nontrivial),
         "traces_validated_against_impl": res.agreed,
